@@ -92,6 +92,8 @@ def build_soc(cfg):
     soc = SoCCore(p, **kw)
     setattr(soc, cfg.get("periph_name", "periph"), Periph())      # "audio": the alphabetically first CSR owner then owns a CSR memory
     _PERIPH[id(soc)] = getattr(soc, cfg.get("periph_name", "periph"))      # kept outside the SoC object: AutoCSR scans every attribute
+    if cfg.get("pin") is not None:
+        soc.csr.add(cfg.get("periph_name", "periph"), n=cfg["pin"])          # fixed CSR location of a peripheral that owns registers AND a CSR memory
     ext = wishbone.Interface(data_width=32, address_width=32, addressing='word')
     soc.bus.add_master('ext', ext)
     soc.finalize()
@@ -255,6 +257,18 @@ def build(cfgname, K):
         if a and a["read"] and (csr_base + a["read"][0][0]) != info["addr"]:
             text_bad.append(("header", nm))
     text_bad += other_formats_disagree(soc, j, header, csv, csr_base, fieldmac)
+    # published CSR objects (register banks and memory windows) are pairwise disjoint
+    spans = []
+    for rname, region in soc.csr_regions.items():
+        if isinstance(region.obj, list):
+            nbytes = 4 * sum((c.size + region.busword - 1) // region.busword for c in region.obj)
+        else:
+            nbytes = 4 * region.obj.depth * ((region.obj.width + region.busword - 1) // region.busword)
+        spans.append((region.origin, region.origin + nbytes, rname))
+    for i in range(len(spans)):
+        for k in range(i + 1, len(spans)):
+            if spans[i][0] < spans[k][1] and spans[k][0] < spans[i][1]:
+                text_bad.append(("published CSR regions overlap", spans[i][2], spans[k][2]))
     top = Mon()
     top.submodules.soc = soc
     top.submodules.seq = seq = Seq(ext)
@@ -479,12 +493,13 @@ CFGS = {
     "wb_csr32_crossbar": dict(bus_interconnect="crossbar"),
     "wb_csr32_paging1000": dict(csr_paging=0x1000),
     "wb_csr32_memfirst": dict(periph_name="audio"),
+    "wb_csr32_pinned": dict(pin=9),
 }
 
 
 def jobs(tier):
     T = tier == "thorough"
-    names = ["wb_csr32", "wb_csr32_paging400", "wb_csr32_little", "wb_csr32_memfirst"] + (["wb_csr8", "axil_csr32", "wb_csr32_aw15", "wb_csr32_crossbar", "wb_csr32_paging1000"] if T else [])
+    names = ["wb_csr32", "wb_csr32_paging400", "wb_csr32_little", "wb_csr32_memfirst", "wb_csr32_pinned"] + (["wb_csr8", "axil_csr32", "wb_csr32_aw15", "wb_csr32_crossbar", "wb_csr32_paging1000"] if T else [])
     js = [Job("soc_%s" % n, build, dict(cfgname=n, K=(46 if "csr8" in n else 30)), cost=60, timeout_s=3400) for n in names]
     from vf.props import c14_mem
     js += c14_mem.jobs(tier)
